@@ -8,6 +8,7 @@ import (
 	"hash"
 	"html/template"
 	"net/url"
+	"sync"
 	"time"
 
 	"github.com/hashicorp/go-retryablehttp"
@@ -445,10 +446,20 @@ func (c *Config) GetBCryptCost(_ context.Context) int {
 // GetJWKSFetcherStrategy returns the JWKSFetcherStrategy.
 func (c *Config) GetJWKSFetcherStrategy(_ context.Context) JWKSFetcherStrategy {
 	if c.JWKSFetcherStrategy == nil {
-		c.JWKSFetcherStrategy = NewDefaultJWKSFetcherStrategy()
+		// The getter is called by concurrent requests: the default (which owns a cache and therefore has to be
+		// one instance) is created once and not stored into the Config.
+		defaultJWKSFetcherStrategyOnce.Do(func() {
+			defaultJWKSFetcherStrategy = NewDefaultJWKSFetcherStrategy()
+		})
+		return defaultJWKSFetcherStrategy
 	}
 	return c.JWKSFetcherStrategy
 }
+
+var (
+	defaultJWKSFetcherStrategy     JWKSFetcherStrategy
+	defaultJWKSFetcherStrategyOnce sync.Once
+)
 
 // GetTokenEntropy returns the entropy of the "message" part of a HMAC Token. Defaults to 32.
 func (c *Config) GetTokenEntropy(_ context.Context) int {
